@@ -10,17 +10,17 @@ FEATURES = ["backward-chaining"]
 FILES = bc.FILES
 FUNCTIONS = bc.FUNCTIONS
 ASSUMPTIONS = bc.ASSUMPTIONS + [
-    "histories of TWO queries with the same goal text on one engine, the caller's facts replaced by arbitrary other facts in between; compared with a fresh engine on the second facts",
+    "histories of TWO queries on one engine (first query: the same goal text, or - separate runs - a different goal 'a == true' / 'g == false'; second query 'g == true'), the caller's facts replaced by arbitrary other facts in between; compared with a fresh engine on the second facts",
     "strategy DepthFirst, max_depth fixed (see bounds), enable_memoization symbolic (default true)",
 ]
 TIERS = {
     "quick": [{"R": 1, "D": 1}],
-    "thorough": [{"R": 1, "D": 2}],
+    "thorough": [{"R": 1, "D": 2}, {"R": 1, "D": 1, "Q1": "a == true"}],
 }
 BOUNDS_NOTE = "bounds: R rules, two queries, max_depth D (see runs[].bounds); longer query sequences, different goal texts and attached RETE engines are outside the claim (R >= 2 did not finish: 25 min cap)"
 
 
-def run(R, D, witness=False):
+def run(R, D, Q1="g == true", witness=False):
     h = Harness(FILES, cap=max(R, 4) + 2, loop_bound=max(R, D) + 4, rec_bound=D + 4)
     ip = h.ip
     rules, vi, vbool = bc.build_kb(h, R)
@@ -36,7 +36,7 @@ def run(R, D, witness=False):
         with ip.under(p):
             ip.call("Facts::set", [h.ref("f2c"), S(k), vbool(v)])
     h.tag = "q1"
-    o1 = ip.deref(ip.call("BackwardEngine::query", [h.ref("eng"), S("g == true"), h.ref("f1")]))
+    o1 = ip.deref(ip.call("BackwardEngine::query", [h.ref("eng"), S(Q1), h.ref("f1")]))
     h.tag = "q2"
     o2 = ip.deref(ip.call("BackwardEngine::query", [h.ref("eng"), S("g == true"), h.ref("f2")]))
     h.tag = "fresh"
@@ -57,7 +57,8 @@ def run(R, D, witness=False):
     if witness:
         h.require(False, "C11 witness")
     r = h.decide()
-    r["bounds"] = {"rules": R, "max_depth": D, "queries": 2}
+    r["bounds"] = {"rules": R, "max_depth": D, "queries": 2, "first_query": Q1, "second_query": "g == true"}
+    r["Q1"] = Q1
     r["harness"] = h
     r["R"], r["D"] = R, D
     return r
@@ -65,7 +66,7 @@ def run(R, D, witness=False):
 
 def decode(res, m):
     return {"rules": bc.decode_common(m, res["R"]), "facts1": bc.decode_facts(m, "f1"), "facts2": bc.decode_facts(m, "f2"),
-            "max_depth": res["D"], "enable_memoization": m["enable_memoization"]}
+            "max_depth": res["D"], "first_query": res["Q1"], "enable_memoization": m["enable_memoization"]}
 
 
 def finding_key(msg, trace):
@@ -82,7 +83,7 @@ fn main() {
     let mut fresh = BackwardEngine::with_config(kb(&rules), cfg());
     let (mut f1, mut f2, mut f2c) = (facts(&i1), facts(&i2), facts(&i2));
     let mut bad: Vec<String> = Vec::new();
-    let r1 = eng.query("g == true", &mut f1);
+    let r1 = eng.query("%s", &mut f1);
     let r2 = eng.query("g == true", &mut f2);
     let rf = fresh.query("g == true", &mut f2c);
     match (r1, r2, rf) {
@@ -91,12 +92,12 @@ fn main() {
     }
     if bad.is_empty() { println!("NOT-REPRODUCED"); } else { println!("REPRODUCED: {:?}", bad); }
 }
-""" % (bc.rust_rules(t["rules"]), bc.rust_facts(t["facts1"]), bc.rust_facts(t["facts2"]), t["max_depth"], str(bool(t["enable_memoization"])).lower())
+""" % (bc.rust_rules(t["rules"]), bc.rust_facts(t["facts1"]), bc.rust_facts(t["facts2"]), t["max_depth"], str(bool(t["enable_memoization"])).lower(), t.get("first_query", "g == true"))
 
 
 if __name__ == "__main__":
     import sys
-    r = run(int(sys.argv[1]), int(sys.argv[2]))
+    r = run(int(sys.argv[1]), int(sys.argv[2]), *(sys.argv[3:4]))
     print(r["status"], r["covers"], r["inconclusive"][:5], "wall", r["wall_s"], "decide", r["decide_wall_s"])
     for msg, m in r["violations"]:
         print("VIOLATION", msg, decode(r, m), finding_key(msg, decode(r, m)))
